@@ -575,6 +575,18 @@ pub fn run(ctx: &Ctx) -> Report {
             }
         }
     }
+    // SDD pools on many vtree shapes (binary nodes above decision nodes and the reverse): every
+    // vtree of 4 variables (every 3rd in quick) and every shape of 5 variables with the identity
+    // labelling, a progression of functions each, all query pairs
+    {
+        let step4 = ctx.tier.pick(3, 1);
+        for (i, vt) in all_vtrees(4).into_iter().enumerate().filter(|(i, _)| i % step4 == 0) {
+            items.push((7, 4, 0x1ee1 + 257 * i as u64, ctx.tier.pick(16384, 4096), vec![], vt));
+        }
+        for (i, vt) in vtrees_over(&[0, 1, 2, 3, 4]).into_iter().enumerate() {
+            items.push((7, 5, 0x6996_1ee1 + 65_537 * i as u64, ctx.tier.pick(1_431_655_765, 268_435_399), vec![], vt));
+        }
+    }
     let r = par_run(ctx, &items, |_, (kind, n, f, g, o, vt)| {
         let mut r = Report::default();
         r.exhaustive = true;
@@ -596,6 +608,24 @@ pub fn run(ctx: &Ctx) -> Report {
                 }
             }
             1 => explore_sdd(*f, *g, *n, vt, depth.min(3), &mut r),
+            7 => {
+                let total = 1u64 << (1u64 << *n);
+                let mut t = *f % total;
+                let mut k = 0u64;
+                while t < total {
+                    // second pool function: the bit-reversed neighbour
+                    let g2 = (t.rotate_left(7) ^ 0x5a5a_5a5a_5a5a_5a5a) & (total - 1);
+                    explore_sdd(t, g2, *n, vt, 2, &mut r);
+                    if r.n_violations > 4 {
+                        break;
+                    }
+                    t += *g;
+                    k += 1;
+                    if k > 64 {
+                        break;
+                    }
+                }
+            }
             4 => {
                 // every function of n variables as a top-down diagram, every ordered pair of queries
                 let total = 1u64 << (1u64 << *n);
